@@ -12,6 +12,7 @@
 //
 //	reload gc=.. early=.. order=.. q<i>=.. [f<i>=..]   the configuration loaded again (same or changed) into the same process
 //	cfg t0=<ns> gc=<sec|-> early=<0|1> [mod=<k>] order=<i,j,..> q0=c,<max>,<expSec|->,<parent|-> q1=f ...   ok | err:init
+//	req r=<id> m=<G|P> [p=x|y] [h=0|1] [s=<n>|e]   (s: sequence id = transaction n's id / empty; default its own)
 //	req r=<id> m=<G|P>                               v=<a|r|e> c=<n0,n1,..>    (a admitted, r refused 429, e answered early 200)
 //	resp r=<id>                                      ok c=<..>
 //	err r=<id>                                       ok c=<..>                  (Stream.OnError)
@@ -140,6 +141,23 @@ func parseCfg(w []string) (caseCfg, bool) {
 	return c, true
 }
 
+// optional `s=<n|e>`: the sequence id is that of transaction <n> (a retried attempt carries its first attempt's id) or empty;
+// default: the transaction's own id (a first attempt)
+func seqOpt(w []string, id string) (string, bool) {
+	s, ok := proto.KV(w, "s")
+	if !ok {
+		return id, true
+	}
+	if s == "e" {
+		return "", true
+	}
+	n, err := strconv.ParseUint(s, 10, 32)
+	if err != nil {
+		return "", false
+	}
+	return fmt.Sprintf("t%d", n), true
+}
+
 // optional `p=<x|y>` (URL path, default x) and `h=<0|1>` (request header x-c02: 1, default 0)
 func txOpts(w []string) (string, bool, bool) {
 	path, hdr := "x", false
@@ -237,7 +255,15 @@ func exec(c proto.Case, o *proto.Out) []string {
 				outs[i] = "bad-op"
 				continue
 			}
-			v := e.request(id, m == "P", path, hdr)
+			seq, ok4 := seqOpt(w, id)
+			if !ok4 {
+				outs[i] = "bad-op"
+				continue
+			}
+			v := e.requestSeq(id, seq, m == "P", path, hdr)
+			if seq != id {
+				o.Count("req-retried-attempt")
+			}
 			outs[i] = "v=" + v + " " + e.obs()
 			o.Count("req-" + v)
 			if e.rewrote {
@@ -261,7 +287,12 @@ func exec(c proto.Case, o *proto.Out) []string {
 				outs[i] = "bad-op"
 				continue
 			}
-			outs[i] = e.response(id, m == "P", path) + " " + e.obs()
+			seq, ok4 := seqOpt(w, id)
+			if !ok4 {
+				outs[i] = "bad-op"
+				continue
+			}
+			outs[i] = e.responseSeq(id, seq, m == "P", path) + " " + e.obs()
 			o.Count("resp")
 		case "err":
 			id, ok := reqID(w)
